@@ -2155,7 +2155,7 @@ namespace ST
         {
             ST_ssize_t first = find(sep, cs);
             if (first >= 0)
-                return substr(first + 1);
+                return substr(first + sep.size());
             else
                 return string();
         }
@@ -2215,7 +2215,7 @@ namespace ST
         {
             ST_ssize_t last = find_last(sep, cs);
             if (last >= 0)
-                return substr(last + 1);
+                return substr(last + sep.size());
             else
                 return *this;
         }
